@@ -9,21 +9,20 @@ import XjsModel.Props.C15
   determined by the script's ECMAScript parse tree, parenthesised expressions being transparent and a literal
   contributing only its value. Under it, "the output behaves like the source" reduces to "the output is a spelling of
   the same tree". The Lean theorems below are the links of that chain that are proved; the remaining links
-  (lexing the printed bytes back to the printed tokens; statements and the non-operator expression forms in the
-  print→parse direction; literal values) are decided by the correspondence run and by the model-free behaviour
+  (lexing the printed bytes back to the printed tokens; numeric and backtick literal values; pretty mode) are decided by the correspondence run and by the model-free behaviour
   oracle, which RUNS source and output in a JavaScript engine in every configuration.
 
   Proved (all inputs / all trees):
     (1) source → tree keeps every token: the tokens of the tree are the tokens of the accepted source (C12);
     (2) tree → compact output does not depend on trivia (comments, blank lines) nor on whether a source map is
         requested (C15, C14), and compiling is a function of (configuration, tree);
-    (3) expressions without function / object literals are printed with exactly the parentheses that make the
-        printed tokens parse back to the same tree (C03) — so for those, source tree = tree of the output;
+    (3) every tree of the language is printed (compact mode, token level) so that the printed tokens parse back to the
+        same tree without error (C03, whole programs) — so source tree = tree of the output;
     (4) an error-free tree is complete and compiles in every configuration without failing (C11).
   Known findings in the oracle: nosemi-hazard (D6), restricted-production (D2), trim-in-literal (D5).
 -/
 namespace Xjs.C01
-open Xjs Xjs.RTE
+open Xjs Xjs.RS
 
 /-- (1)+(4): an accepted program's tree carries exactly the source tokens and compiles in every configuration -/
 theorem accepted_source_is_faithfully_represented (cfg : PCfg) (toks : List Token) (r : ParseResult)
@@ -49,8 +48,15 @@ theorem operator_core_round_trip (cfg : PCfg) (hc : BaseCfg cfg) (s : SE) (hw : 
     parseExpressionI cfg [] LOWEST st = some (s.tree, nextK (s.toks.length - 1) st) :=
   Xjs.C03.printed_tokens_parse_back cfg hc s hw st rest hr ht hstop
 
+/-- (3) for whole programs: the tree of the output tokens is the printed tree, and no error is reported -/
+theorem program_round_trip (cfg : PCfg) (hc : BaseCfg cfg) (prog : SSList) (hw : prog.wf = true)
+    (eofTok : Token) (he : eofTok.type = .eof) :
+    ∃ r, parseProgram cfg (prog.toks ++ [eofTok]) = some r ∧ r.prog = prog.tree ∧ r.errors = [] ∧ r.hasErr = false :=
+  Xjs.C03.printed_program_parses_back cfg hc prog hw eofTok he
+
 end Xjs.C01
 
 #print axioms Xjs.C01.accepted_source_is_faithfully_represented
 #print axioms Xjs.C01.compact_output_depends_on_tree_only
 #print axioms Xjs.C01.operator_core_round_trip
+#print axioms Xjs.C01.program_round_trip
